@@ -219,6 +219,52 @@ def run(prog: Program) -> Results:
             res.add("R-C13-4", (s.key, "element rendered without kind test"), s.loc(),
                     f"{s.key} renders every list element with `{norm(renders[0])[:60] if renders else '?'}` without looking at its "
                     f"kind: NixList([-1, 2]) renders `[ -1 2 ]`, which Nix reads as a subtraction / syntax error")
+    # ---------------------------------------------------------------- R-C13-5 no equality-keyed lookup of raw scalars
+    r5 = res.rule("R-C13-5", "raw Python scalars are told apart by type, never by equality or hash: in the construction/rendering "
+                  "closure no dict/set lookup (or `in` on a collection) is keyed by a value that is still a raw scalar "
+                  "(True == 1 == 1.0 and False == 0 share one key), unless the key carries the type", floor=0)
+    SCALARS = {"str", "int", "float", "bool", "NoneType", "type(None)", "bytes"}
+    n_fn = 0
+    for f in prog.all_functions():
+        if not f.module.startswith("nix_manipulator/expressions/"):
+            continue
+        raw = set()
+        for c in walk_no_nested(f.node):
+            if isinstance(c, ast.Call) and isinstance(c.func, ast.Name) and c.func.id == "isinstance" and len(c.args) == 2 and isinstance(c.args[0], ast.Name):
+                ts = c.args[1].elts if isinstance(c.args[1], ast.Tuple) else [c.args[1]]
+                names = {norm(t) for t in ts}
+                if names & {"int", "float", "bool"}:
+                    raw.add(c.args[0].id)
+        if not raw:
+            continue
+        n_fn += 1
+        res.analysed_functions.add(f.key)
+
+        def typed(k):
+            return isinstance(k, ast.Tuple) and any(isinstance(e, ast.Call) and isinstance(e.func, ast.Name) and e.func.id == "type" for e in k.elts)
+
+        for n in walk_no_nested(f.node):
+            key = cont = None
+            if isinstance(n, ast.Subscript) and isinstance(n.slice, ast.Name) and n.slice.id in raw and isinstance(n.value, ast.Name):
+                key, cont = n.slice, n.value
+            elif isinstance(n, ast.Compare) and len(n.ops) == 1 and isinstance(n.ops[0], (ast.In, ast.NotIn)) and isinstance(n.left, ast.Name) \
+                    and n.left.id in raw and isinstance(n.comparators[0], ast.Name):
+                key, cont = n.left, n.comparators[0]
+            elif isinstance(n, ast.Call) and isinstance(n.func, ast.Attribute) and n.func.attr in ("get", "setdefault", "add", "index", "count", "pop") \
+                    and n.args and isinstance(n.args[0], ast.Name) and n.args[0].id in raw and isinstance(n.func.value, ast.Name):
+                key, cont = n.args[0], n.func.value
+            if key is None:
+                continue
+            # a subscript of the raw value itself (`value[0]`) is not a lookup *by* the value
+            r5.instances += 1
+            r5.ob(False, {"site": f.key, "lookup": norm(n)[:60]})
+            res.add("R-C13-5", (f.key, "lookup keyed by a raw scalar", norm(cont)), f.loc(n),
+                    f"{f.key}: `{norm(n)[:70]}` looks `{key.id}` up by equality while it may still be a raw Python scalar: "
+                    f"True and 1 (and 1.0), False and 0 are the same key, so `[1, True]` is rendered as `[ 1 1 ]`")
+    r5.samples.append({"functions_handling_raw_scalars": n_fn})
+    if n_fn < 3:
+        res.unclass(f"only {n_fn} functions testing raw scalar types were found in the expression modules (expected coerce_expression, "
+                    f"_primitive_cls_from_value, NixList.rebuild.<render_item>, ...)")
     res.assumptions = ["Nix float grammar: a float literal needs a dot; list elements admit only select-level expressions"]
     return res
 
